@@ -40,6 +40,9 @@ type params struct {
 	// ResumeAt > 0: the "resume" leg - the station under test sends to the reference peer, which
 	// answers the proposal with an offset request (!n / An): the transfer resumes at that offset.
 	ResumeAt int `json:"resume_at,omitempty"`
+	// ResumeEnd > 0 (resume leg): the offset asked for is the compressed size of the message minus (ResumeEnd-1) - the
+	// upper end of the range: 1 = nothing is left to send, 2 = one byte is.
+	ResumeEnd int `json:"resume_end,omitempty"`
 	// GateFirst: on both stations the first periodic report stays inside UpdateStatus until both Exchange
 	// calls have returned; the reports still owed (in particular that transfer's Done) arrive afterwards.
 	GateFirst bool `json:"gate_first,omitempty"`
@@ -148,6 +151,11 @@ func plan(seed int64, tier string) []vrt.Case {
 	for i, at := range []int{1, 125, 1000, 2500} {
 		for rep := 0; rep < reps; rep++ {
 			cs = append(cs, vrt.Case{ID: fmt.Sprintf("resume%d-r%d", at, rep), Params: vrt.MustParams(params{Seed: seed, Index: 1000 + i, DelayMS: []int{0, 40}[rep%2], Size: 3600, NMsgs: 2, Rep: rep, ResumeAt: at}), TimeoutS: 600})
+		}
+	}
+	for end := 1; end <= 2; end++ {
+		for rep := 0; rep < 2; rep++ {
+			cs = append(cs, vrt.Case{ID: fmt.Sprintf("resume-end%d-r%d", end, rep), Params: vrt.MustParams(params{Seed: seed, Index: 1100 + end, DelayMS: []int{0, 40}[rep%2], Size: 700, NMsgs: 2, Rep: rep, ResumeAt: 1, ResumeEnd: end}), TimeoutS: 600})
 		}
 	}
 	return cs
@@ -274,7 +282,7 @@ func attempt(c vrt.Case) (vrt.Obs, map[string]bool) {
 	var p0 params
 	vrt.Params(c, &p0)
 	if p0.ResumeAt > 0 {
-		return attemptResume(p0), map[string]bool{}
+		return attemptResume(p0)
 	}
 	return attemptPair(c)
 }
@@ -282,8 +290,8 @@ func attempt(c vrt.Case) (vrt.Obs, map[string]bool) {
 // attemptResume: the station sends two messages to the reference peer; the first is answered with an
 // offset request. Every report must still name the message, lie within [0, compressed size] and the
 // transfer must end with exactly one Done report.
-func attemptResume(p params) vrt.Obs {
-	var o vrt.Obs
+func attemptResume(p params) (o vrt.Obs, missing map[string]bool) {
+	missing = map[string]bool{}
 	o.Evals = 1
 	rng := vrt.Rand(p.Seed, "c17resume", p.Index, p.Rep)
 	w := b2fx.BaseWorld(fmt.Sprintf("c17resume-%d-%d", p.ResumeAt, p.Rep), p.Rep%2 == 0)
@@ -293,11 +301,27 @@ func attemptResume(p params) vrt.Obs {
 	}
 	if err := w.AddLib("RESUME000001", "resumed transfer", vrt.Bytes(rng, p.Size), tok); err != nil {
 		o.Inconclusive = append(o.Inconclusive, err.Error())
-		return o
+		return
+	}
+	if p.ResumeEnd > 0 {
+		msg := new(fbb.Message)
+		if err := msg.ReadFrom(bytes.NewReader(w.Truth["RESUME000001"])); err != nil {
+			o.Inconclusive = append(o.Inconclusive, err.Error())
+			return
+		}
+		pr, err := msg.Proposal(fbb.Wl2kProposal)
+		if err != nil {
+			o.Inconclusive = append(o.Inconclusive, err.Error())
+			return
+		}
+		p.ResumeAt = pr.CompressedSize() - (p.ResumeEnd - 1)
+		tok = fmt.Sprintf("%c%d", tok[0], p.ResumeAt)
+		w.Plan.Answers["RESUME000001"] = tok
+		o.Count("resumed_transfers_from_the_upper_end_of_the_offset_range", 1)
 	}
 	if err := w.AddLib("RESUME000002", "ordinary transfer", vrt.Bytes(rng, 900), "+"); err != nil {
 		o.Inconclusive = append(o.Inconclusive, err.Error())
-		return o
+		return
 	}
 	rec := &recorder{}
 	w.Status = rec
@@ -305,11 +329,11 @@ func attemptResume(p params) vrt.Obs {
 	run := w.Run(false, [2][]vpipe.Edit{})
 	if run.Lib.Err != nil || run.Lib.Panic != nil || run.Res.Err != nil {
 		o.Inconclusive = append(o.Inconclusive, fmt.Sprintf("resume leg: session did not complete: station=%v panic=%v peer=%v complaints=%v", run.Lib.Err, run.Lib.Panic != nil, run.Res.Err, run.Res.Complaints))
-		return o
+		return
 	}
 	if run.Res.ResumedTransfers == 0 {
 		o.Inconclusive = append(o.Inconclusive, "resume leg: the peer did not see a resumed transfer")
-		return o
+		return
 	}
 	o.Count("resumed_transfers", int64(run.Res.ResumedTransfers))
 	deadline := time.Now().Add(60 * time.Second)
@@ -353,6 +377,7 @@ func attemptResume(p params) vrt.Obs {
 			o.Count("done_reports_exactly_one", 1)
 		case n == 0:
 			o.Inconclusive = append(o.Inconclusive, "resume leg "+mid+": Done report not seen within the 60 s quiescence cap")
+			missing[fmt.Sprintf("resume leg %s (answered %s)", mid, tok)] = true
 		default:
 			o.Violate("status-done-count", "resume leg %s: %d reports with Done set (expected exactly one)", mid, n)
 		}
@@ -360,7 +385,7 @@ func attemptResume(p params) vrt.Obs {
 	o.Count("periodic_reports", int64(periodic))
 	o.Sig("resume %d r%d periodic=%d", p.ResumeAt, p.Rep, periodic)
 	o.Sample = map[string]any{"leg": "resume", "answer": tok, "periodic_reports": periodic, "delay_ms": p.DelayMS}
-	return o
+	return
 }
 
 func attemptPair(c vrt.Case) (vrt.Obs, map[string]bool) {
